@@ -25,18 +25,20 @@ VARIABLES ls, disk, l, bad
 
 D == INSTANCE Dhcp4 WITH Macs <- SetOf(Hdr.macs), Pool <- SetOf(Hdr.pool), Outs <- SetOf(Hdr.outs),
                          GW <- Hdr.gw, Far <- Hdr.far, ReqHosts <- SetOf(Hdr.reqhosts),
-                         StaticHosts <- SetOf(Hdr.stathosts), MaxStatic <- 1000000
+                         StaticHosts <- SetOf(Hdr.stathosts), MaxStatic <- 1000000,
+                         LeaseT <- Hdr.leaset
 
-\* <<mac, ip, 2*static + acknowledged, host>> as the harness writes leases.
-Dec(t)   == D!Lease(t[1], t[2], t[3] >= 2, t[3] % 2 = 1, t[4])
+\* <<mac, ip, remaining ticks (-1 = reservation), host>> as the harness writes leases.
+Dec(t)   == [mac |-> t[1], ip |-> t[2], st |-> t[3] = -1, rem |-> IF t[3] = -1 THEN 0 ELSE t[3], host |-> t[4]]
 DecS(s)  == {Dec(s[i]) : i \in DOMAIN s}
-Once(s)  == Cardinality(DecS(s)) = Len(s) /\ \A i \in DOMAIN s : s[i][3] \in {0, 1, 3}
+Once(s)  == Cardinality(DecS(s)) = Len(s) /\ \A i \in DOMAIN s : s[i][3] \in -1..Hdr.leaset
 
 Outcomes(S, Dk, a) ==
     CASE a.act = "Discover"     -> D!DiscoverOut(S, a.m)
       [] a.act = "Request"      -> D!RequestOut(S, a.m, a.kind, a.a, a.h)
       [] a.act = "Decline"      -> D!DeclineOut(S, a.m, a.a)
       [] a.act = "Release"      -> D!ReleaseOut(S, a.m, a.a)
+      [] a.act = "Tick"         -> D!TickOut(S)
       [] a.act = "Expire"       -> D!ExpireOut(S, a.a)
       [] a.act = "AddStatic"    -> D!AddStaticOut(S, a.m, a.a, a.h)
       [] a.act = "UpdateStatic" -> D!UpdateStaticOut(S, a.m, a.a, a.h)
@@ -46,7 +48,8 @@ Outcomes(S, Dk, a) ==
 
 \* The observed reply against the reply class of an outcome.
 ReplyOK(o, obs, dst, m) ==
-    CASE o.out.k \in {"offer", "ack"} -> obs.k = o.out.k /\ obs.ip = o.out.ip
+    CASE o.out.k = "offer"            -> obs.k = o.out.k /\ obs.ip = o.out.ip
+      [] o.out.k = "ack"              -> obs.k = o.out.k /\ obs.ip = o.out.ip /\ obs.t = o.out.t
       [] o.out.k = "refuse"           -> obs.k \in {"none", "nak"}
       [] o.out.k = "any"              -> obs.ip = 0 \/ \E x \in dst : x.mac = m /\ x.ip = obs.ip
       [] o.out.k \in {"ok", "err"}    -> obs.k = o.out.k
@@ -67,7 +70,7 @@ Why(S, Dk, t) ==
         ELSE IF ~Once(t.disk) \/ \A o \in outs : o.dst = dst => ~diskOK(o) THEN "structures"
         ELSE IF ~(SetOf(t.prob) \subseteq SetOf(t.srcprob)) THEN "structures"
         ELSE ""
-Want(S, Dk, t) == {<<o.dst = S, D!EncS(o.dst), o.out.k, o.out.ip>> : o \in Outcomes(S, Dk, t.act)}
+Want(S, Dk, t) == {<<o.dst = S, D!EncS(o.dst), o.out.k, o.out.ip, o.out.t>> : o \in Outcomes(S, Dk, t.act)}
 
 Init == ls = {} /\ disk = {} /\ l = 2 /\ bad = {}
 Next == /\ l <= Len(Trace)
